@@ -7,14 +7,14 @@
 set -u
 VERIF="$(cd "$(dirname "$0")" && pwd)"
 what="${1:-mutants}"; filter="${2:-}"
-out="$VERIF/sensitivity_results.jsonl"; : > "$out.tmp"
+out="$VERIF/sensitivity_results.$what.jsonl"; : > "$out.tmp"
 work="$(mktemp -d /var/tmp/verif.sens.XXXXXX)"; trap 'rm -rf "$work"' EXIT
 run_one() { # name patch prop expect
   local name="$1" patch="$2" prop="$3" expect="$4"
   rm -rf "$work/repo"; mkdir -p "$work/repo"
   (cd /repo && git archive HEAD) | tar -x -C "$work/repo"
   if ! (cd "$work/repo" && patch -p1 -s < "$patch"); then echo "{\"name\":\"$name\",\"error\":\"patch does not apply\"}" >> "$out.tmp"; return; fi
-  local props="$prop"; [ "$prop" = ALL ] && props="C01 C02 C03 C05 C11 C17 C18"
+  local props="${prop//,/ }"; [ "$prop" = ALL ] && props="C01 C02 C03 C05 C11 C17 C18"
   for p in $props; do
     local t0=$(date +%s)
     VERIF_REPO="$work/repo" VERIF_EVIDENCE_DIR="$work/evidence" VERIF_REPLAY_DIR="$work/replays" "$VERIF/check.sh" "$p" quick > "$work/log" 2>&1
